@@ -341,22 +341,24 @@ end
 def textOK (s : Str) (n : Node) (dbg : Bool := false) : List Viol := textOKN dbg s "" n
 
 mutual
-/-- leaves for C05: operators, reserved words, pipes, whole words, redirects (fd + operator +
-    target; a body the redirect was not extended over is a leaf of its own) -/
-def leaves : Node → List Span
-  | .operator p _ | .reservedword p _ | .pipe p _ => [p]
-  | .word p _ _ | .assignment p _ _ => [p]
-  | .parameter p _ | .tilde p _ | .heredoc p _ => [p]
-  | .commandsubstitution p _ | .processsubstitution p _ => [p]
+/-- leaves for C05 with a flag "is (or holds) a here-document body": operators, reserved words,
+    pipes, whole words, redirects (fd + operator + target; a body the redirect was not extended
+    over is a leaf of its own) -/
+def leaves : Node → List (Span × Bool)
+  | .operator p _ | .reservedword p _ | .pipe p _ => [(p, false)]
+  | .word p _ _ | .assignment p _ _ => [(p, false)]
+  | .parameter p _ | .tilde p _ => [(p, false)]
+  | .heredoc p _ => [(p, true)]
+  | .commandsubstitution p _ | .processsubstitution p _ => [(p, false)]
   | .redirect p _ _ _ _ h _ =>
     match h with
-    | some b => if spanIn b.pos p then [p] else [p, b.pos]
-    | none => [p]
+    | some b => if spanIn b.pos p then [(p, true)] else [(p, false), (b.pos, true)]
+    | none => [(p, false)]
   | .list _ ps | .pipeline _ ps | .ifN _ ps | .forN _ ps | .whileN _ ps | .untilN _ ps
   | .caseN _ ps | .pattern _ ps | .command _ ps | .unimplemented _ ps | .function _ _ _ ps =>
     leavesL ps
   | .compound _ l r => leavesL l ++ leavesL r
-def leavesL : List Node → List Span
+def leavesL : List Node → List (Span × Bool)
   | [] => []
   | n :: ns => leaves n ++ leavesL ns
 end
@@ -377,18 +379,20 @@ end Bashlex.Spec
 namespace Bashlex.Spec
 open Bashlex
 
-def sortSpans (l : List Span) : List Span := (l.toArray.qsort (fun a b => a.1 < b.1)).toList
+def sortSpans (l : List (Span × Bool)) : List (Span × Bool) :=
+  (l.toArray.qsort (fun a b => a.1.1 < b.1.1)).toList
 
-/-- walk sorted leaf spans, checking disjointness and that gaps are layout -/
-def gapsOK (s : Str) : Nat → List Span → List Viol
-  | cur, [] => if isLayout (s.length + 1) (s.drop cur) then [] else ["trailing-text-not-layout"]
-  | cur, p :: rest =>
-    (if p.1 < cur then ["leaf-overlap"] else
+/-- walk sorted leaf spans, checking disjointness and that gaps are layout; an overlap that
+    involves a here-document body is marked (bodies gathered too late are a known defect) -/
+def gapsOK (s : Str) : Nat → Bool → List (Span × Bool) → List Viol
+  | cur, _, [] => if isLayout (s.length + 1) (s.drop cur) then [] else ["trailing-text-not-layout"]
+  | cur, prevBody, (p, body) :: rest =>
+    (if p.1 < cur then [if prevBody || body then "leaf-overlap+heredoc-body" else "leaf-overlap"] else
       if isLayout (s.length + 1) (Str.slice s cur p.1) then [] else ["gap-not-layout"]) ++
-    gapsOK s (max cur p.2) rest
+    gapsOK s (max cur p.2) (if p.2 ≥ cur then body else prevBody) rest
 
 /-- C05 on the whole result of `parse` -/
 def coverOK (s : Str) (parts : List Node) : List Viol :=
-  gapsOK s 0 (sortSpans (leavesL parts))
+  gapsOK s 0 false (sortSpans (leavesL parts))
 
 end Bashlex.Spec
